@@ -205,18 +205,41 @@ def r3_walk(ctx, prog):
                 r.inst(site, "visited.clear() precedes the walk in every iteration")
             else:
                 r.viol("R3:%s#stale-visited" % b.name, "inside a loop, default_of_inner is called with a visited set that still holds the locales of a previous walk: a later locale whose chain passes through them is sent to the default locale", file=b.file, line=term["line"])
-    fn = ctx.ast.fn(PL, "compute", impl_self="DefaultedLocales")
-    t = flatp(show(fn.body)) if fn else ""
-    if has(t, "forkeyinself.mapping.keys{") and has(t, "letdefault_to=self.default_of_innerkey,&mutvisited;defaults.entrydefault_to.clone.or_default.insertkey.clone;"):
-        r.inst("compute", "every defaulted locale is filed under the locale its walk ends at")
+    # compute() / new() / push() evaluated as a whole (with default_of_inner under them): a DefaultedLocales built by new(default) and
+    # filled by push(locale, fallback) files every defaulted locale under the locale its own walk ends at - also when an earlier
+    # locale's walk went through the same locales (a visited set that is not reset between walks would send the later one to the default)
+    from rules import absint
+    from rules.absint import AEval, CF, L, T
+    funcs_dl = absint.file_funcs(ctx.ast, PL, impl_self="DefaultedLocales")
+    fnew, fpush, fcomp = funcs_dl.get("DefaultedLocales::new"), funcs_dl.get("DefaultedLocales::push"), funcs_dl.get("DefaultedLocales::compute")
+    if None in (fnew, fpush, fcomp):
+        r.missing("DefaultedLocales::new / push / compute")
     else:
-        r.viol("R3:compute#shape", "compute no longer files every defaulted locale under the end of its walk", file=PL)
-    fn = ctx.ast.fn(PL, "new", impl_self="DefaultedLocales")
-    t = flatp(show(fn.body)) if fn else ""
-    if not has(t, "DefaultedLocales{default_locale:default_locale,mapping:Default::default}"):
-        r.viol("R3:DefaultedLocales::new", "new() must start with an empty map and the given default locale", file=PL)
-    else:
-        r.inst("DefaultedLocales::new", "empty map, given default locale")
+        def S2(x):
+            return ("str", x)
+        dl = AEval(funcs=funcs_dl).run_fn(fnew, [S2("en")])
+        pairs = [("fr", "de"), ("fr-CA", "fr"), ("fr-BE", "fr"), ("it", "es"), ("es", "it"), ("pt", "pt"), ("nl", "en")]
+        okp = not isinstance(dl, str)
+        for a_, b_ in pairs:
+            if not okp:
+                break
+            ev = AEval(funcs=funcs_dl)
+            res = ev.run_fn(fpush, [dl, S2(a_), S2(b_)])
+            if isinstance(res, str):
+                okp = False
+                dl = res
+                break
+            dl = (getattr(ev, "last_env", None) or {}).get("self", dl)
+        got = AEval(funcs=funcs_dl).run_fn(fcomp, [dl]) if okp else dl
+        want = {"de": {"fr", "fr-CA", "fr-BE"}, "en": {"it", "es", "pt", "nl"}}
+        have = None
+        if not isinstance(got, str) and got[0] == "list":
+            have = {x[1][0][1]: {y[1] for y in x[1][1][1]} for x in got[1] if x[0] == "tuple"}
+        if have == want:
+            r.inst("compute", "new(en) + push x7 + compute: {fr, fr-CA, fr-BE} fall back to de (two chains through fr, walked one after the other), the loop it <-> es, the self loop pt and nl -> en fall back to en")
+            r.inst("DefaultedLocales::new", "starts empty with the given default locale; push records (locale -> fallback)")
+        else:
+            r.viol("R3:compute#shape", "after new(en) and push of %s compute() gives %s, expected %s" % (pairs, have if have is not None else (got if isinstance(got, str) else absint.fmt(got)[:200]), want), file=PL)
     mv = prog.body("ParsedValue::make_locale_value")
     if mv is not None:
         ok = False
